@@ -55,6 +55,9 @@ func genSeq(t *rapid.T, o genOpts) SCase {
 	var ops []SOp
 	for len(ops) < n {
 		kind := rapid.SampledFrom(kinds).Draw(t, "kind")
+		if rapid.IntRange(0, 19).Draw(t, "fillInstead") == 0 {
+			kind = "fill"
+		}
 		key := rapid.IntRange(0, len(Keys)-1).Draw(t, "key")
 		if len(crossed) > 0 && rapid.Bool().Draw(t, "aimAtExpired") {
 			key = rapid.SampledFrom(crossed).Draw(t, "expiredKey")
@@ -108,6 +111,10 @@ func genSeq(t *rapid.T, o genOpts) SCase {
 			for j, k := range op.Keys {
 				note(k, op.Exps[j])
 			}
+		case "fill":
+			op.N = rapid.SampledFrom([]int{3, 9, 30, 30, 70, 70, 130}).Draw(t, "fillKeys")
+			op.Val = rapid.IntRange(0, len(Vals)-1).Draw(t, "val")
+			op.Exp = rapid.SampledFrom(exps).Draw(t, "exp")
 		case "list":
 			op.Pat = rapid.IntRange(0, len(Patterns)-1).Draw(t, "pat")
 			if rapid.IntRange(0, 2).Draw(t, "second") == 0 {
